@@ -197,13 +197,14 @@ fn typedefs(ms: &[Member], two_members: bool) -> Vec<TypeDef> {
 }
 
 fn has_alias_cycle(g: &Graph) -> bool {
-    // alias -> alias -> ... -> itself through plain references is not a valid definition
+    // a cycle made only of aliases (through any wrapper) is not a definition the Conjure
+    // compiler accepts; such graphs stay out of the space
     for start in 0..g.len() {
         let mut cur = start;
         let mut steps = 0;
         loop {
             match &g[cur] {
-                TypeDef::Alias(Member::Ref(Wrap::Plain, i)) => {
+                TypeDef::Alias(Member::Ref(_, i)) | TypeDef::Alias(Member::DeclSafeRef(i)) => {
                     cur = *i;
                     steps += 1;
                     if cur == start {
